@@ -289,6 +289,12 @@ class URLInfo(object):
 
         hostname = ipaddress.IPv6Address(hostname[1:-1]).compressed
 
+        if any(char in hostname
+               for char in FORBIDDEN_HOSTNAME_CHARS - frozenset(':%')):
+            # The zone ID after '%' is not validated by ipaddress
+            raise ValueError('Invalid IPv6 address: {}'
+                             .format(ascii(hostname)))
+
         return hostname
 
     @property
